@@ -18,6 +18,7 @@ const (
 	KBig    // math/big.Int: (bval, bbuf)
 	KArray  // (Array Int Elem) - Go array values, ghost arrays
 	KTuple
+	KFn // abstract map given as a function (spec level only)
 )
 
 type FieldInfo struct {
